@@ -317,6 +317,35 @@ def _judge_saved_state(sc):
     if not all((before[i] is None and after[i] is None) or (before[i] is not None and after[i] is not None and np.array_equal(before[i], after[i])) for i in before):
         return _viol("context:state-not-restored", "the states found at the entry of `with with_state():` are not back at its exit (reset + run inside)", sc,
                      {i: None if v is None else v.tolist() for i, v in before.items()}, {i: None if v is None else v.tolist() for i, v in after.items()})
+    # a stateful=False operation INSIDE an open temporary context is stateless too: states untouched by it, and repeatable
+    Xn = scen.fl(scengen.rows(rng, 2, din))
+    try:
+        with mA.with_state():
+            _do(mA, {"as_run": True}, scen.fl(scengen.rows(rng, 2, din)))
+            mid = _states(A)
+            ok1, r1 = _do(mA, {"stateful": False, "as_run": True}, Xn)
+            mid2 = _states(A)
+            ok2, r2 = _do(mA, {"stateful": False, "as_run": True}, Xn)
+    except Exception as e:  # noqa: BLE001
+        return _viol("context:exception", "a stateless run inside `with with_state():` raises %r" % (e,), sc)
+    if not _same(mid, mid2) or ok1 != ok2 or (ok1 and not np.array_equal(r1, r2)):
+        return _viol("context:nested-stateless-not-stateless", "a run(stateful=False) issued inside an open `with with_state():` block changed the node states / is not repeatable", sc)
+    # a never-run MODEL used inside a temporary context comes out behaving like a never-run model (a single node refuses the context
+    # until it is initialised)
+    if not is_model:
+        return None
+    F1, F2 = scen.Built(base), scen.Built(base)
+    m1, m2 = F1.models[0], F2.models[0]
+    try:
+        with m1.with_state():
+            _do(m1, {"as_run": True}, scen.fl(scengen.rows(rng, 3, din)))
+        okA, ra = _do(m1, {"as_run": True}, Xn)
+        okB, rb = _do(m2, {"as_run": True}, Xn)
+    except Exception as e:  # noqa: BLE001
+        return _viol("context:exception", "`with with_state():` on a never-run model raises %r" % (e,), sc)
+    if okA != okB or (okA and not np.allclose(ra, rb, rtol=1e-12, atol=1e-12)):
+        return _viol("context:fresh-model-not-restored", "a never-run model that was run inside `with with_state():` does not behave like a never-run model afterwards", sc,
+                     rb.tolist() if okB else rb, ra.tolist() if okA else ra)
     return None
 
 
